@@ -147,7 +147,23 @@ def run(ctx) -> int:
     n_run, disagreements, kn, kbad, lines = pipecheck.correspond(cases, "c07")
     count = {"pairs": 0, "skipped": 0}
 
+    # every pair of the two family lists, and the hand-made corner documents on either side of three plain neighbours, first
+    pairs = [(a, b) for a in A_FAMILIES for b in B_FAMILIES]
+    cd = [clean(d) for d in docs.corner_docs()]
+    pairs += [(a, b) for a in ("Some introduction.\n", "- l\n", "> q\n") for b in cd]
+    pairs += [(a, b) for a in cd for b in ("## Todo\n*\n* buy milk\n", "| k | v |\n|---|---|\n| x | y |\n2. second step\n", "para\n")]
+
     def probe(r, n):
+        for a, b in pairs:
+            for cfg in (fixed[1], fixed[2]):
+                md = configs.make_md(cfg)
+                v = law(md, a, b)
+                if v == "skip":
+                    count["skipped"] += 1
+                    continue
+                count["pairs"] += 1
+                if v:
+                    return {"config": cfg, "A": a, "B": b, **v}
         for k in range(n):
             cfg = fixed[k % 3] if k % 3 else dict(configs.random_config(r), ruler2_off=[])
             md = configs.make_md(cfg)
